@@ -57,6 +57,9 @@ func (m *Machine) Decide(c *term.Term) bool {
 		return v
 	}
 	m.newDecs++
+	if m.Trace {
+		m.tracef("DECIDE at %s: %s\n", m.curPosStr(), trunc(termKey(c), 160))
+	}
 	nc := term.Not(c)
 	if v, ok := m.evalModel(c); ok {
 		side := v == 1
@@ -71,6 +74,9 @@ func (m *Machine) Decide(c *term.Term) bool {
 				av = 1
 			}
 			m.alts = append(m.alts, WorkItem{Prefix: append(append([]int64(nil), m.path...), av), Model: mod})
+			if m.Trace {
+				m.tracef("FORK at %s\n", m.curPosStr())
+			}
 		}
 		if side {
 			m.path = append(m.path, 1)
@@ -91,6 +97,9 @@ func (m *Machine) Decide(c *term.Term) bool {
 	rf, mf := m.query(nc)
 	if rf != smt.Unsat {
 		m.alts = append(m.alts, WorkItem{Prefix: append(append([]int64(nil), m.path...), 0), Model: mf})
+		if m.Trace {
+			m.tracef("FORK at %s\n", m.curPosStr())
+		}
 	}
 	if mt != nil {
 		m.setModel(mt)
@@ -139,6 +148,9 @@ func (m *Machine) Concretize(t *term.Term, what string) int64 {
 		return v
 	}
 	m.newDecs++
+	if m.Trace {
+		m.tracef("CONC %s at %s: %s\n", what, m.curPosStr(), trunc(termKey(t), 200))
+	}
 	var excl []int64
 	if m.hasExcl && i == len(m.prefix) {
 		excl = m.excl
@@ -279,4 +291,11 @@ func trunc(s string, n int) string {
 		return s[:n] + "…"
 	}
 	return s
+}
+
+func (m *Machine) curPosStr() string {
+	if m.curFrame != nil {
+		return m.curFrame.fn.String() + " " + m.posStr(m.curFrame.curPos)
+	}
+	return "?"
 }
